@@ -771,8 +771,8 @@ def _check_encrypted(args: dict, exp: dict, body: bytes, keyblobs: list, blobcls
 # ---------------------------------------------------------------------------------------------
 # family 1: integer expressions (skeletons from the grammar engine x leaf assignments)
 
-PRELUDE = "constants {\n    c3 = 3;\n    c7 = c3 + 4;\n}\n"
-ENV = {"c3": 3, "c7": 7}
+PRELUDE = "constants {\n    c3 = 3;\n    c7 = c3 + 4;\n    c0 = 0;\n}\n"
+ENV = {"c3": 3, "c7": 7, "c0": 0}
 S_FULL = ["0", "1", "2", "3", "7", "10", "0x10", "0xFF", "0xFFFFFFFF", "1K", "'a'", "c3", "c7",
           "0x155.b", "0x12345.h", "0x1FFFFFFFF.w"]
 S3 = ["7", "3", "2", "10"]
@@ -871,7 +871,7 @@ def render(tokens: tuple, leaves: tuple, mode: str) -> str:
     return s
 
 
-SB_FULL = ["0", "1", "2", "3", "c3", "defined(c3)", "defined(zz)", "0xFFFFFFFF"]
+SB_FULL = ["0", "1", "2", "3", "c3", "defined(c3)", "defined(zz)", "0xFFFFFFFF", "defined(c0)"]  # c0: defined, value 0
 SB3 = ["0", "1", "2", "3"]
 BSEQS = [["2", "1", "0", "3", "1", "0"], ["0", "1", "2", "3", "2", "1"], ["1", "1", "0", "0", "2", "2"],
          ["3", "2", "1", "0", "1", "2"]]
@@ -888,7 +888,7 @@ def bool_leaves(m: int, tier: str) -> list:
 
 
 def expr_program(e: str) -> str:
-    pre = PRELUDE if ("c3" in e or "c7" in e) else ""
+    pre = PRELUDE if ("c3" in e or "c7" in e or "c0" in e) else ""
     return pre + "options {\n    o = " + e + ";\n}\n"
 
 
